@@ -77,6 +77,9 @@ func (g *Gen) wide() string { return g.randCase(g.pick("inherit", "initial", "un
 
 func (g *Gen) calcExpr() string {
 	a, b := g.length(), g.length()
+	if g.known && g.chance(1, 8) { // N13
+		return g.pick("hypot(0px, 3px)", "abs(0px)", "round(0.0em, 1px)", "mod(0px, 3px)", "sign(0px)")
+	}
 	switch g.r.Intn(6) {
 	case 0:
 		return fmt.Sprintf("calc(%s + %s)", a, b)
@@ -339,24 +342,15 @@ func (g *Gen) posOffsetVal() string {
 	return g.length()
 }
 
-// posOffsetInt: an offset usable after right/bottom: by default no fractional percentages (N03)
+// posOffsetFar: an offset usable after right/bottom. By default a percentage there is a plain
+// integer below 1000 (N03: the minifier reads it with ParseInt after number shortening).
 func (g *Gen) posOffsetFar() string {
 	for {
 		v := g.posOffsetVal()
 		if g.known || !strings.HasSuffix(v, "%") {
 			return v
 		}
-		// integral percentage without exponent?
-		body := strings.TrimSuffix(v, "%")
-		ok := true
-		for i := 0; i < len(body); i++ {
-			c := body[i]
-			if !(c >= '0' && c <= '9' || i == 0 && (c == '-' || c == '+')) {
-				// allow trailing ".0"
-				ok = false
-			}
-		}
-		if ok {
+		if rePlainInt.MatchString(strings.TrimSuffix(v, "%")) && !strings.Contains(v, ".") {
 			return v
 		}
 	}
@@ -424,7 +418,37 @@ func (g *Gen) layers(f func() string) string {
 	return g.commaJoin(parts)
 }
 
-func (g *Gen) vBgPositionList() string { return g.layers(g.vBgPosition) }
+// N16: in a background-position list a 3/4-value layer after the first one makes the minifier
+// delete a zero from an earlier layer; by default such layers only come first.
+func (g *Gen) vBgPositionList() string {
+	if g.known {
+		return g.layers(g.vBgPosition)
+	}
+	first := true
+	return g.layers(func() string {
+		for {
+			p := g.vBgPosition()
+			if first || len(strings.Fields(stripComments(p))) <= 2 {
+				first = false
+				return p
+			}
+		}
+	})
+}
+
+func stripComments(s string) string {
+	for {
+		i := strings.Index(s, "/*")
+		if i < 0 {
+			return s
+		}
+		j := strings.Index(s[i+2:], "*/")
+		if j < 0 {
+			return s[:i]
+		}
+		s = s[:i] + " " + s[i+2+j+2:]
+	}
+}
 
 func (g *Gen) vBgRepeat() string {
 	if g.chance(1, 4) {
@@ -455,6 +479,26 @@ func (g *Gen) vBgSize() string {
 	return one() + g.sp() + one()
 }
 
+// vBgSizeShorthand: N14 - inside the background shorthand a two-value size is minified as if it
+// were a position (second 50% dropped, 0 0 removed); by default only sizes that survive that.
+func (g *Gen) vBgSizeShorthand() string {
+	if g.known {
+		if g.chance(1, 3) {
+			return g.pick("50% 50%", "100% 50%", "0 0", "10px 50%", "0px 0%")
+		}
+		return g.vBgSize()
+	}
+	switch g.r.Intn(4) {
+	case 0:
+		return g.randCase(g.pick("cover", "contain"))
+	case 1:
+		return g.pick(g.posLength(), g.randCase("auto"))
+	case 2:
+		return g.pick(g.posLength(), g.randCase("auto")) + g.sp() + g.randCase("auto")
+	}
+	return g.pick(g.posLength(), g.randCase("auto")) + g.sp() + g.absNumber(false) + g.pick("px", "em", "rem")
+}
+
 func (g *Gen) vBgSizeList() string { return g.layers(g.vBgSize) }
 
 func (g *Gen) gradient() string {
@@ -482,7 +526,7 @@ func (g *Gen) vBgLayer(final bool) string {
 		func() string {
 			p := g.vBgPosition()
 			if g.chance(1, 3) {
-				p += g.pick("/", " / ", " /", "/ ") + g.vBgSize()
+				p += g.pick("/", " / ", " /", "/ ") + g.vBgSizeShorthand()
 			}
 			return p
 		},
@@ -833,11 +877,20 @@ func (g *Gen) urange() string {
 	return u + hex(0x10FFFF)
 }
 
+func fullRange(u string) bool {
+	c, why := canonUnicodeRange(&Decl{RawValue: u})
+	return why == "" && c[0].S == "0-10ffff"
+}
+
 func (g *Gen) vUnicodeRange() string {
 	n := 1 + g.r.Intn(5)
 	parts := make([]string, n)
 	for i := range parts {
 		parts[i] = g.urange()
+	}
+	// N15: the whole code space next to other ranges is printed as "initial" inside a list
+	for !g.known && n > 1 && fullRange(strings.Join(parts, ",")) {
+		parts[g.r.Intn(n)] = g.pick("U+41", "U+100-1FF", "u+2??")
 	}
 	return g.commaJoin(parts)
 }
@@ -942,7 +995,10 @@ func (g *Gen) vCustom() string {
 	case 4:
 		return g.color()
 	case 5:
-		return "/* c */" + g.pick(" 1px", "a/**/b", " x /* y */ z")
+		if g.known { // N06
+			return g.pick("a/**/b", "1/**/2", "/**/a/**/b")
+		}
+		return "/* c */" + g.pick(" 1px", "a /**/b", " x /* y */ z")
 	}
 	return g.length()
 }
